@@ -272,6 +272,19 @@ def run(ck, F, E):
     import framework
     from props import C06
     C06.kinds(framework.Rekeyed(ck, "C06", "C15:CHECK"), F, E)
+    # ... and not stricter than the interpreter about DEF bodies either: the interpreter returns whatever the body yields, so a
+    # checker that insists on the kind the function's NAME suggests refuses programs that run (`DEF FNY$(A$) = A$ = "Y"`)
+    da = F.bodies.get("abasic_core::analyzer::statement_analyzer::StatementAnalyzer::evaluate_def_statement")
+    if da is not None:
+        body_checked = False
+        for x in da.calls():
+            if (sfx(x.callee, "ValueType::check_variable_name") or sfx(x.callee, "ValueType::check")) and \
+                    "evaluate_expression" in show(da.expr(x.args[0], depth=20)):
+                body_checked = True
+        ck.require(not body_checked, "C15:CHECK:def-body-not-stricter-than-the-interpreter", "R-PIPE",
+                   "the analyzer does not reject a DEF whose body's kind differs from its name's",
+                   "the analyzer checks a DEF body against the kind its name suggests, which the interpreter never does: `abasic FILE` "
+                   "refuses a program that runs when typed in", da.span)
     # the generator's seed is part of what both modes share: if some interpreter is set up through configure_interpreter alone
     # (the one a loaded file yields), every randomize() of the CLI must sit in configure_interpreter too -- seeding only the
     # interpreters that create_interpreter builds makes `abasic FILE` draw a different RND sequence than the piped session
@@ -426,8 +439,31 @@ def printer_contracts(ck, F):
                    b.span)
 
 
+def single_stdout_writer(ck, F):
+    """What the program prints reaches stdout through one door, StdioPrinter::flush_line_buffer, whatever the mode: a second writer
+    (a `print_prompt` used only when a file is run with redirected input) makes the two modes render the same program output
+    differently.  The banner / echo `println!`s of the session itself are not program output and live outside the printer."""
+    writers = []
+    for p, b in sorted(F.bodies.items()):
+        if b.crate != "abasic" or "stdio_printer::StdioPrinter" not in p:
+            continue
+        for c in b.calls():
+            nm = c.callee.split("::")[-1]
+            if nm in ("write", "write_all", "write_fmt", "_print", "print_to", "flush") and ("Stdout" in c.callee or "io::Write" in c.callee or "stdio" in c.callee):
+                rx = show(b.expr(c.args[0], depth=12)) if c.args else ""
+                if "stderr" in rx.lower() or "_eprint" in c.callee:
+                    continue
+                writers.append(p.split("::")[-1])
+    extra = sorted(set(w for w in writers if w != "flush_line_buffer"))
+    ck.require(bool(writers) and not extra, "C15:CLI:printer-single-stdout-writer", "both modes show all output",
+               "StdioPrinter writes to stdout in flush_line_buffer only",
+               "StdioPrinter also writes to stdout in %s, next to the line buffer: output that goes through it appears in one mode "
+               "and not (or elsewhere) in the other" % ", ".join(extra))
+
+
 def cli_flush_rule(ck, F):
     printer_contracts(ck, F)
+    single_stdout_writer(ck, F)
     ri = F.one("StdioInterpreter::run_impl", "abasic")
     if ri is None:
         ck.missing("C15:CLI:run_impl", "abasic::stdio_interpreter::StdioInterpreter::run_impl")
